@@ -52,7 +52,7 @@ pub struct C09Case {
     pub global_ignore: Vec<u16>,
 }
 
-const NAMES: [&str; 18] = ["a", "b", "c", "ab", "a.b", "a-b", "a+b", "(a)", "ż", "A", "Ab", "v-1", "x.txt", "y.TXT", ".h", ".hid.txt", "a b", "[x]"];
+const NAMES: [&str; 19] = ["a", "b", "c", "ab", "a.b", "a-b", "a+b", "(a)", "ż", "A", "Ab", "v-1", "x.txt", "y.TXT", ".h", ".hid.txt", "a b", "[x]", "Ż"];
 const IGNORE_PATTERNS: [&str; 12] = ["a", "b", "*.txt", "/a", "/ab", "ab/", "c/", "!a", "!x.txt", "*.b", "ż", "v-1"];
 
 fn name_s() -> BoxedStrategy<B> {
@@ -448,9 +448,42 @@ fn judge(c: &C09Case, cd: &CaseDir, built: &Built, have_other: bool) -> Verdict 
     sig.sort();
     sig.dedup();
     let non_ascii = args.iter().any(|a| !a.to_string_lossy().is_ascii()) || !cwd.to_string_lossy().is_ascii();
-    if non_ascii {
-        sig.push("non-ascii-in-pattern-or-cwd".into());
-    }
+    // literal prefixes (absolute form) of the glob --path patterns: the open finding (byte length used as
+    // a character count in the pruning test) needs non-ASCII text in such a prefix and strikes only
+    // directories at least as long, in bytes, as the prefix minus its last character
+    let glob_prefixes: Vec<String> = if c.regex {
+        vec![]
+    } else {
+        path_p
+            .iter()
+            .map(|p| {
+                let mut lit = if p.text.starts_with('/') || p.text.starts_with("**") { String::new() } else { format!("{}/", cwd.to_string_lossy()) };
+                let mut it = p.text.chars();
+                while let Some(ch) = it.next() {
+                    if ch == '\\' {
+                        if let Some(n) = it.next() {
+                            lit.push(n);
+                        }
+                    } else if "*?[{@+".contains(ch) {
+                        break;
+                    } else {
+                        lit.push(ch);
+                    }
+                }
+                lit
+            })
+            .collect()
+    };
+    let attributable = move |missing: &[Vec<u8>]| -> bool {
+        if c.regex {
+            return non_ascii;
+        }
+        !missing.is_empty()
+            && missing.iter().all(|m| {
+                let dir_len = bytes_path(m).parent().map(|d| d.as_os_str().len()).unwrap_or(0);
+                glob_prefixes.iter().any(|l| !l.is_ascii() && dir_len >= l.char_indices().last().map(|(i, _)| i).unwrap_or(0))
+            })
+    };
     let fail = |clause: &str, detail: String| Verdict::Fail { clause: clause.into(), detail: format!("{}\n{}\n{}", cmdline, detail, out.brief()), sig: sig.clone() };
     if out.timed_out {
         return Verdict::Inconclusive("timeout".into());
@@ -499,6 +532,12 @@ fn judge(c: &C09Case, cd: &CaseDir, built: &Built, have_other: bool) -> Verdict 
         let missing: Vec<B> = exp_set.difference(&got_set).map(|p| B(p.clone())).collect();
         let extra: Vec<B> = got_set.difference(&exp_set).map(|p| B(p.clone())).collect();
         let clause = if !missing.is_empty() { "selected-file-missed" } else { "unselected-file-scanned" };
+        if !missing.is_empty() && attributable(&missing.iter().map(|b| b.0.clone()).collect::<Vec<_>>()) {
+            let mut s2 = sig.clone();
+            s2.push("non-ascii-in-pattern-or-cwd".into());
+            let listing: Vec<String> = built.entries.iter().map(|e| format!("{}{}", e.abs.strip_prefix(&tree).unwrap_or(&e.abs).display(), match e.kind { BuiltKind::Dir => "/", BuiltKind::Symlink => "@", _ => "" })).collect();
+            return Verdict::Fail { clause: clause.into(), detail: format!("{}\nmissing: {:?}\nextra: {:?}\ntree: {}\n{}", cmdline, missing, extra, listing.join(" "), out.brief()), sig: s2 };
+        }
         let listing: Vec<String> = built.entries.iter().map(|e| format!("{}{}", e.abs.strip_prefix(&tree).unwrap_or(&e.abs).display(), match e.kind { BuiltKind::Dir => "/", BuiltKind::Symlink => "@", _ => "" })).collect();
         return fail(clause, format!("missing: {:?}\nextra: {:?}\ntree: {}", missing, extra, listing.join(" ")));
     }
